@@ -105,7 +105,7 @@ class SchemaSim final : public Engine {
     }
     switch (type) {
     case CstType::base: case CstType::constant: def = r.Pct(92) ? "" : g.TopLevel(false); break;
-    case CstType::structured: def = r.Pct(90) ? g.StructureDef() : g.TopLevel(false); break;
+    case CstType::structured: def = r.Pct(82) ? g.StructureDef() : (r.Pct(50) && !env.allAliases.empty()) ? r.Pick(env.allAliases) : g.TopLevel(false); break;   // sometimes just the name of some global (a set, an element, a statement)
     case CstType::axiom: case CstType::theorem: def = r.Pct(92) ? g.TopLevel(true) : g.TopLevel(false); break;
     case CstType::term: def = r.Pct(92) ? g.TopLevel(false) : g.TopLevel(true); break;
     case CstType::function: def = r.Pct(90) ? g.FunctionDef(false) : g.TopLevel(false); break;
@@ -152,7 +152,7 @@ public:
     c["w_create"] = r.Range(3, 8); c["w_expr"] = r.Range(2, 8); c["w_text"] = r.Range(0, 6); c["w_rename"] = r.Range(0, 4);
     c["w_struct"] = r.Range(1, 4); c["w_track"] = r.Range(0, 2); c["w_ops"] = r.Range(0, 3); c["w_persist"] = r.Range(0, 3); c["w_api"] = r.Range(0, 2);
     if (focus_ == "C08") { c["w_rename"] = r.Range(4, 10); c["observe"] = 1; }
-    if (focus_ == "C09") { c["w_struct"] = r.Range(2, 6); c["w_track"] = r.Range(1, 3); }
+    if (focus_ == "C09") { c["w_struct"] = r.Range(2, 6); c["w_track"] = r.Range(1, 4); c["p_dup"] = r.Range(5, 30); c["w_ops"] = r.Range(1, 4); c["ops_dedupe_bias"] = 1; }
     if (focus_ == "C10") { c["w_persist"] = r.Range(3, 8); c["w_text"] = r.Range(2, 8); }
     if (focus_ == "C12") { c["w_ops"] = r.Range(4, 10); c["docs"] = r.Range(2, 3); c["p_mutant"] = r.Pct(60) ? 0 : r.Range(5, 20); }
     if (focus_ == "C04") { c["w_api"] = r.Range(3, 8); c["w_persist"] = r.Range(3, 8); c["p_mutant"] = r.Range(20, 60); }
